@@ -239,23 +239,23 @@ impl CorruptSpec {
                 if d.len() < 64 {
                     return false;
                 }
-                let w32 = |d: &mut Vec<u8>, at: usize, v: u32| {
-                    if at + 4 <= d.len() {
-                        d[at..at + 4].copy_from_slice(&v.to_le_bytes());
+                let r32 = |d: &Vec<u8>, at: usize| -> Option<usize> {
+                    if at.checked_add(4)? <= d.len() {
+                        Some(u32::from_le_bytes([d[at], d[at + 1], d[at + 2], d[at + 3]]) as usize)
+                    } else {
+                        None
                     }
                 };
-                let so = u32::from_le_bytes([d[44], d[45], d[46], d[47]]) as usize;
-                let n = if so + 8 <= d.len() {
-                    u32::from_le_bytes([d[so + 4], d[so + 5], d[so + 6], d[so + 7]]) as usize
-                } else {
-                    0
-                };
+                let so = r32(d, 44).unwrap_or(0);
+                let n = r32(d, so.saturating_add(4)).unwrap_or(0).min(64);
                 let pick = if n > 0 { *arg as usize % n } else { 0 };
-                let poff = so + 8 + 8 * pick;
-                let voff = if poff + 8 <= d.len() {
-                    so + u32::from_le_bytes([d[poff + 4], d[poff + 5], d[poff + 6], d[poff + 7]]) as usize
-                } else {
-                    0
+                let poff = so.saturating_add(8 + 8 * pick);
+                let voff = r32(d, poff.saturating_add(4)).map(|o| so.saturating_add(o)).unwrap_or(usize::MAX - 16);
+                let cp_voff = r32(d, so.saturating_add(12)).map(|o| so.saturating_add(o)).unwrap_or(usize::MAX - 16);
+                let w32 = |d: &mut Vec<u8>, at: usize, v: u32| {
+                    if at.checked_add(4).map(|e| e <= d.len()).unwrap_or(false) {
+                        d[at..at + 4].copy_from_slice(&v.to_le_bytes());
+                    }
                 };
                 match kind % 16 {
                     0 => d[0] = 0,
@@ -263,30 +263,23 @@ impl CorruptSpec {
                     2 => d[6] = 9,
                     3 => w32(d, 24, 0),
                     4 => w32(d, 44, *arg),
-                    5 => w32(d, 44, d.len() as u32 - 2),
-                    6 => w32(d, so + 4, 0x7fff_ffff),
-                    7 => w32(d, so + 4, n as u32 + 1 + arg % 3),
-                    8 => w32(d, poff + 4, 0xffff_fff0),
-                    9 => w32(d, poff + 4, (d.len() - so) as u32 - 1),
+                    5 => { let l = d.len() as u32 - 2; w32(d, 44, l) }
+                    6 => w32(d, so.saturating_add(4), 0x7fff_ffff),
+                    7 => w32(d, so.saturating_add(4), n as u32 + 1 + arg % 3),
+                    8 => w32(d, poff.saturating_add(4), 0xffff_fff0),
+                    9 => { let l = d.len().saturating_sub(so).saturating_sub(1) as u32; w32(d, poff.saturating_add(4), l) }
                     10 => w32(d, voff, 77),
-                    11 => w32(d, voff + 4, 0),
-                    12 => w32(d, voff + 4, 0xffff_ffff),
-                    13 => {
-                        // first property (code page) gets a wrong type
-                        let cpo = so + 8;
-                        let v = so + u32::from_le_bytes([d[cpo + 4], d[cpo + 5], d[cpo + 6], d[cpo + 7]]) as usize;
-                        w32(d, v, 3);
-                    }
+                    11 => w32(d, voff.saturating_add(4), 0),
+                    12 => w32(d, voff.saturating_add(4), 0xffff_ffff),
+                    13 => w32(d, cp_voff, 3),
                     14 => {
-                        let cpo = so + 8;
-                        let v = so + u32::from_le_bytes([d[cpo + 4], d[cpo + 5], d[cpo + 6], d[cpo + 7]]) as usize;
-                        if v + 6 <= d.len() {
-                            d[v + 4] = 0x39;
-                            d[v + 5] = 0x30;
+                        if cp_voff.checked_add(6).map(|e| e <= d.len()).unwrap_or(false) {
+                            d[cp_voff + 4] = 0x39;
+                            d[cp_voff + 5] = 0x30;
                         }
                     }
                     _ => {
-                        if n >= 2 {
+                        if n >= 2 && so.saturating_add(20) <= d.len() {
                             let first = [d[so + 8], d[so + 9], d[so + 10], d[so + 11]];
                             d[so + 16..so + 20].copy_from_slice(&first);
                         }
